@@ -89,6 +89,7 @@ class Ctx(object):
         self.replaying = False
         self._shrinking = False
         self._in_hyp = False
+        self.confirming = False   # True while a shrunk failure is re-run for confirmation
 
     # ----- bookkeeping
     def n(self, quick, thorough):
@@ -197,6 +198,7 @@ class Ctx(object):
         if fn is not None:
             self._shrinking = True
             self._in_hyp = True
+            self.confirming = True
             try:
                 for _ in range(2):
                     try:
@@ -206,6 +208,7 @@ class Ctx(object):
             finally:
                 self._shrinking = False
                 self._in_hyp = False
+                self.confirming = False
             if again == 0:
                 self.inconclusive += 1
                 self.note("unreproduced failure: %s" % v.message[:300])
